@@ -661,3 +661,198 @@ def write_raw(docs, outdir):
             os.makedirs(os.path.dirname(p), exist_ok=True)
             if not os.path.exists(p) or open(p).read() != txt:
                 open(p, "w").write(txt)
+
+
+# ---- protobuf corpus (G_proto) -------------------------------------------------------------------
+PB_SCALARS = ["double", "float", "int32", "int64", "uint32", "uint64", "sint32", "sint64", "fixed32", "fixed64", "sfixed32",
+              "sfixed64", "bool", "string", "bytes"]
+PB_KEYS = ["int32", "int64", "uint32", "uint64", "sint32", "sint64", "fixed32", "fixed64", "sfixed32", "sfixed64", "bool", "string"]
+
+
+class PDocB:
+    def __init__(self, name, package, syntax="proto3", imports=()):
+        self.name, self.package, self.syntax, self.imports = name, package, syntax, list(imports)
+        self.top = []  # text blocks
+        self.messages = []  # schema
+        self.enums = {}
+
+    def enum(self, name, values, parent=None):
+        fq = ".".join(x for x in [self.package, parent, name] if x)
+        self.enums[fq] = [v for _, v in values]
+        return "enum %s { %s }" % (name, " ".join("%s = %d;" % (n, v) for n, v in values)), fq
+
+    def fq(self, name, parent=None):
+        return ".".join(x for x in [self.package, parent, name] if x)
+
+    def text(self):
+        head = 'syntax = "%s";\n' % self.syntax
+        if self.package:
+            head += "package %s;\n" % self.package
+        for i in self.imports:
+            head += 'import "%s.proto";\n' % i
+        return head + "\n" + "\n\n".join(self.top) + "\n"
+
+
+def pf(num, name, label, ty, tyname=None, key=None, oneof=None):
+    return {"num": num, "name": name, "label": label, "ty": ty, "tyname": tyname, "key": key, "oneof": oneof}
+
+
+def pb_field_text(f, syntax):
+    ty = f["ty"] if f["ty"] not in ("message", "enum") else "." + f["tyname"]
+    if f["label"] == "map":
+        return "  map<%s, %s> %s = %d;" % (f["key"], ty, f["name"], f["num"])
+    lab = {"singular": "" if syntax == "proto3" else "optional ", "optional": "optional ", "required": "required ", "repeated": "repeated ", "oneof": ""}[f["label"]]
+    return "  %s%s %s = %d;" % (lab, ty, f["name"], f["num"])
+
+
+def pb_message_text(name, fields, syntax, nested=()):
+    lines = ["message %s {" % name]
+    for n in nested:
+        lines += ["  " + l for l in n.splitlines()]
+    groups = {}
+    for f in fields:
+        if f["label"] == "oneof":
+            groups.setdefault(f["oneof"], []).append(f)
+    done = set()
+    for f in fields:
+        if f["label"] == "oneof":
+            if f["oneof"] in done:
+                continue
+            done.add(f["oneof"])
+            lines.append("  oneof %s {" % f["oneof"])
+            for g in groups[f["oneof"]]:
+                lines.append("  " + pb_field_text(g, syntax))
+            lines.append("  }")
+        else:
+            lines.append(pb_field_text(f, syntax))
+    lines.append("}")
+    return "\n".join(lines)
+
+
+def proto_sem():
+    docs = []
+    d = PDocB("pscalars", "psc")
+
+    def add(name, fields, nested=(), parent=None):
+        d.top.append(pb_message_text(name, fields, d.syntax, nested)) if parent is None else None
+        d.messages.append({"name": name, "fq": d.fq(name, parent), "fields": fields, "enums": []})
+
+    add("ScalarsSingular", [pf(i + 1, "f_%s" % t, "singular", t) for i, t in enumerate(PB_SCALARS)])
+    add("ScalarsOptional", [pf(i + 1, "o_%s" % t, "optional", t) for i, t in enumerate(PB_SCALARS)])
+    add("ScalarsRepeated", [pf(i + 1, "r_%s" % t, "repeated", t) for i, t in enumerate(PB_SCALARS)])
+    add("ScalarsMapVal", [pf(i + 1, "mv_%s" % t, "map", t, key="string") for i, t in enumerate(PB_SCALARS)])
+    add("ScalarsMapKey", [pf(i + 1, "mk_%s" % t, "map", "int32", key=t) for i, t in enumerate(PB_KEYS)])
+    add("ScalarsOneof", [pf(i + 1, "x_%s" % t, "oneof", t, oneof="pick") for i, t in enumerate(PB_SCALARS)] + [pf(100, "after", "singular", "int32")])
+    nums = [1, 15, 16, 2047, 2048, 536870911]
+    add("Nums", [pf(n, "n%d" % n, "singular", t) for n, t in zip(nums, ["int32", "string", "sint64", "bool", "fixed32", "bytes"])])
+    add("NumsRep", [pf(n, "n%d" % n, "repeated", t) for n, t in zip(nums, ["int32", "string", "sint64", "bool", "fixed32", "double"])])
+    docs.append(d)
+
+    d = PDocB("pnamed", "pnm")
+
+    def add2(name, fields, nested=(), parent=None, text=True):
+        if text and parent is None:
+            d.top.append(pb_message_text(name, fields, d.syntax, nested))
+        d.messages.append({"name": name, "fq": d.fq(name, parent), "fields": fields, "enums": []})
+
+    et, efq = d.enum("Kind", [("K0", 0), ("K1", 1), ("K5", 5), ("KNEG", -1)])
+    d.top.append(et)
+    inner = [pf(1, "a", "singular", "int32"), pf(2, "b", "singular", "string")]
+    add2("Inner", inner)
+    ifq = d.fq("Inner")
+    named = [
+        pf(1, "e", "singular", "enum", efq), pf(2, "oe", "optional", "enum", efq), pf(3, "re", "repeated", "enum", efq),
+        pf(4, "me", "map", "enum", efq, key="string"),
+        pf(5, "m", "singular", "message", ifq), pf(6, "om", "optional", "message", ifq), pf(7, "rm", "repeated", "message", ifq),
+        pf(8, "mm", "map", "message", ifq, key="int32"),
+        pf(9, "pe", "oneof", "enum", efq, oneof="pick"), pf(10, "pm", "oneof", "message", ifq, oneof="pick"), pf(11, "ps", "oneof", "string", oneof="pick"),
+        pf(12, "tail", "singular", "sint32"),
+    ]
+    add2("Named", named)
+    # nesting: two levels, several nested messages and a nested enum
+    leaf = [pf(1, "v", "singular", "int64")]
+    mid_fields = [pf(1, "leaf", "singular", "message", d.fq("Leaf", "Outer.Mid")), pf(2, "n", "repeated", "uint32")]
+    side_fields = [pf(1, "s", "singular", "string")]
+    outer_fields = [pf(1, "mid", "singular", "message", d.fq("Mid", "Outer")), pf(2, "side", "repeated", "message", d.fq("Side", "Outer")),
+                    pf(3, "third", "optional", "message", d.fq("Third", "Outer")), pf(4, "fourth", "map", "message", d.fq("Fourth", "Outer"), key="string"),
+                    pf(5, "id", "singular", "int32")]
+    mid_txt = pb_message_text("Mid", mid_fields, d.syntax, [pb_message_text("Leaf", leaf, d.syntax)])
+    outer_txt = pb_message_text("Outer", outer_fields, d.syntax, [mid_txt, pb_message_text("Side", side_fields, d.syntax),
+                                                                 pb_message_text("Third", [pf(1, "t", "singular", "bool")], d.syntax),
+                                                                 pb_message_text("Fourth", [pf(1, "f", "singular", "double")], d.syntax)])
+    d.top.append(outer_txt)
+    add2("Outer", outer_fields, text=False)
+    add2("Mid", mid_fields, parent="Outer", text=False)
+    add2("Leaf", leaf, parent="Outer.Mid", text=False)
+    add2("Side", side_fields, parent="Outer", text=False)
+    add2("Third", [pf(1, "t", "singular", "bool")], parent="Outer", text=False)
+    add2("Fourth", [pf(1, "f", "singular", "double")], parent="Outer", text=False)
+    rfq = d.fq("Rec")
+    add2("Rec", [pf(1, "next", "singular", "message", rfq), pf(2, "kids", "repeated", "message", rfq), pf(3, "v", "singular", "int32"),
+                 pf(4, "m", "map", "message", rfq, key="string"), pf(5, "cnt", "oneof", "uint64", oneof="o"), pf(6, "txt", "oneof", "string", oneof="o")])
+    docs.append(d)
+
+    d = PDocB("ptwo", "p2x", syntax="proto2")
+
+    def add3(name, fields):
+        d.top.append(pb_message_text(name, fields, d.syntax))
+        d.messages.append({"name": name, "fq": d.fq(name), "fields": fields, "enums": []})
+
+    et, efq = d.enum("E2", [("Z", 0), ("ONE", 1), ("BIG", 100000)])
+    d.top.append(et)
+    add3("In2", [pf(1, "q", "required", "int32"), pf(2, "w", "optional", "string")])
+    add3("P2", [pf(1, "r", "required", "int32"), pf(2, "o", "optional", "string"), pf(3, "rep", "repeated", "sint64"), pf(4, "rm", "required", "message", d.fq("In2")),
+                pf(5, "e", "optional", "enum", efq), pf(6, "re", "required", "enum", efq), pf(7, "rb", "required", "bytes"), pf(8, "rd", "required", "double"),
+                pf(9, "om", "optional", "message", d.fq("In2")), pf(10, "ob", "optional", "bool"), pf(11, "rs", "required", "sfixed32")])
+    docs.append(d)
+
+    dep = PDocB("pimp_dep", "imp.dep")
+    dep.top.append(pb_message_text("Dep", [pf(1, "v", "singular", "int32"), pf(2, "s", "repeated", "string")], dep.syntax))
+    dep.messages.append({"name": "Dep", "fq": dep.fq("Dep"), "fields": [pf(1, "v", "singular", "int32"), pf(2, "s", "repeated", "string")], "enums": []})
+    main = PDocB("pimp_main", "imp.main", imports=["pimp_dep"])
+    mf = [pf(1, "d", "singular", "message", dep.fq("Dep")), pf(2, "ds", "repeated", "message", dep.fq("Dep")), pf(3, "dm", "map", "message", dep.fq("Dep"), key="uint64"), pf(4, "x", "singular", "fixed64")]
+    main.top.append(pb_message_text("UsesDep", mf, main.syntax))
+    main.messages.append({"name": "UsesDep", "fq": main.fq("UsesDep"), "fields": mf, "enums": []})
+    # the importing document's schema must know the imported message too
+    main.messages.append(dict(dep.messages[0], imported=True))
+    main.extra_files = {"pimp_dep.proto": dep.text()}
+    docs.append(main)
+    return docs
+
+
+def write_proto_corpus(docs, outdir):
+    os.makedirs(outdir, exist_ok=True)
+    schema = {"docs": []}
+    for d in docs:
+        files = {d.name + ".proto": d.text()}
+        files.update(getattr(d, "extra_files", {}))
+        for rel, txt in files.items():
+            p = os.path.join(outdir, d.name, rel)
+            os.makedirs(os.path.dirname(p), exist_ok=True)
+            if not os.path.exists(p) or open(p).read() != txt:
+                open(p, "w").write(txt)
+        schema["docs"].append({"name": d.name, "syntax": d.syntax, "messages": d.messages, "enums": d.enums})
+    sp = os.path.join(outdir, "schema.json")
+    txt = json.dumps(schema)
+    if not os.path.exists(sp) or open(sp).read() != txt:
+        open(sp, "w").write(txt)
+    return schema
+
+
+def proto_docs_raw():
+    out = []
+    for d in proto_sem():
+        files = {d.name + ".proto": d.text()}
+        files.update(getattr(d, "extra_files", {}))
+        out.append(RawDoc("pb_" + d.name, files, main=d.name + ".proto", label="protobuf:" + d.name, mode="proto"))
+    # naming stress for protobuf (P6)
+    kws = RUST_KEYWORDS[:18]
+    body = 'syntax = "proto3";\npackage kwp;\n' + "\n".join("message %s { int32 %s = 1; }" % (k.capitalize() + "Msg", k) for k in kws if k not in ("Self", "self"))
+    body += "\nmessage KwFields {\n" + "\n".join("  string %s = %d;" % (k, i + 1) for i, k in enumerate(kws) if k not in ("Self",)) + "\n}\n"
+    body += "enum KwEnum { KW_ZERO = 0; " + " ".join("%s = %d;" % (k.upper() + "_V", i + 1) for i, k in enumerate(kws)) + " }\n"
+    body += "message Option { int32 a = 1; }\nmessage Vec { Option o = 1; }\nmessage Box { Vec v = 1; oneof type { string s = 2; int32 i = 3; } }\n"
+    body += "service KwSvc { rpc Get(Option) returns (Vec); rpc Stream(stream Box) returns (stream Vec); }\n"
+    out.append(RawDoc("pb_naming", {"pb_naming.proto": body}, label="protobuf:naming-stress", mode="proto"))
+    rec = 'syntax = "proto3";\npackage rco;\nmessage Node { int32 v = 1; oneof next { Node child = 2; string leaf = 3; } }\n'
+    out.append(RawDoc("pb_rec_oneof", {"pb_rec_oneof.proto": rec}, label="protobuf:recursive-oneof", mode="proto"))
+    return out
